@@ -151,7 +151,7 @@ def run(tier, seed):
         for k in st: st[k] += s[k]
         for f in s["faults"]:
             key = "str:%s:%s:%s:%s" % (f.get("rule"), f.get("op", ""), f.get("input"), f.get("repr"))
-            chk.violation(key, "string %r (%s), %s: expected %s, got %s %s" % (f.get("input"), ["fresh", "sub-slice", "slice of slice"][f.get("repr", 0) or 0], f.get("op") or f.get("rule"), f.get("expected"), f.get("got"), f.get("detail", "")[:100]), f)
+            chk.violation(key, "string %r (%s), %s: expected %s, got %s %s" % (f.get("input"), ["fresh", "sub-slice", "slice of slice", "slice beyond 64 KiB of its buffer"][f.get("repr", 0) or 0], f.get("op") or f.get("rule"), f.get("expected"), f.get("got"), f.get("detail", "")[:100]), f)
         cov["samples"] += s["samples"][:1] if len(cov["samples"]) < 3 else []
     cov["streams"]["string-grid"] = st
     cov["evaluations"] += st["evaluations"]
@@ -183,7 +183,7 @@ def run(tier, seed):
     cov["evaluations"] += mst["evaluations"]
     if not quick:
         sanitizer_layer(chk, cov)
-    cov["rule"] = ("string grid (complete): all strings of <= %d symbols over {a, é, €, 😀, U+0301, space, LF, CRLF, comma} x 3 representations (fresh host value, sub-slice of a "
+    cov["rule"] = ("string grid (complete): all strings of <= %d symbols over {a, é, €, 😀, U+0301, space, LF, CRLF, comma} x 4 representations (slice starting 70 000 bytes into its buffer, fresh host value, sub-slice of a "
                    "concatenation, slice of a slice) x every operation of the batch: size, s[i], s[i..j], s[i..=j], s[..j], s[..=j], s[i..] for all i, j in [-1, len+1], chars, "
                    "char_indices, bytes, from_bytes, lines, for-loop, unpacking, trim / trim_start / trim_end (+19 patterns), split / contains / starts_with / ends_with / "
                    "strip_prefix / strip_suffix / replace (19 patterns), case mapping, repeat 0-3, interpolation, re-join and chars round-trip laws; format grid (complete): "
